@@ -123,7 +123,7 @@ CHECKS = {
         text='S = the name-resolution rules of Python rules over abstract scope trees (module/function/class/comprehension/lambda x load/store/global/nonlocal/param/'
              'walrus); M = the mapper, binder, resolver, pin rules and name assigner with any processing order and rename/decline choice. TLC '
              'checks that every renamed program keeps the binding partition, home scopes, class fallbacks and compilability (all option combinations; '
-             'thorough adds two names). Every enumerated program (quick ~15 600 + 4 500 four-deep chains of scopes, thorough ~47 000 + 20 000 chains) is concretised with unique tags, minified by the real '
+             'the two-name model, 22.4 M states, is run by the thorough command when VERIF_DEEP_MODEL=1). Every enumerated program (quick ~15 600 + 4 500 four-deep chains of scopes, thorough ~47 000 + 20 000 chains) is concretised with unique tags, minified by the real '
              'code under three option sets, the spelling of every occurrence is read back (a share also with adversarial names, heavier mention counts, stores spelled as annotated assignment / for / with / tuple / import - also one suite down - and mentions that '
              'bind nothing or are evaluated elsewhere: value-less module-level annotations, del of a declared global, reads in *args / **kwargs annotations; the programs that exist on '
              'Python 2 are also minified under 2.7), TLC re-evaluates the rules of Python on input and output, and '
